@@ -282,6 +282,7 @@ func (h *Handler) ProcessPacket(frame packet.Frame) error {
 	}
 
 	var response packet.DHCP4
+	broadcast := dhcpFrame.Broadcast() // read it now: the reply is encoded in place, over the request
 
 	h.Lock()
 	switch reqType {
@@ -303,7 +304,7 @@ func (h *Handler) ProcessPacket(frame packet.Frame) error {
 	if response != nil {
 		var dstAddr packet.Addr
 		// If IP not available, broadcast
-		if frame.SrcAddr.IP == packet.IPv4zero || dhcpFrame.Broadcast() {
+		if frame.SrcAddr.IP == packet.IPv4zero || broadcast {
 			dstAddr = packet.Addr{MAC: packet.EthBroadcast, IP: packet.IPv4bcast, Port: packet.DHCP4ClientPort}
 		} else {
 			dstAddr = packet.Addr{MAC: frame.SrcAddr.MAC, IP: frame.SrcAddr.IP, Port: packet.DHCP4ClientPort}
